@@ -53,8 +53,9 @@ def greedy_changepoint_selection(
         argmax = scores.argmax()
         cpt = maximizers[argmax]
         cpts.append(int(cpt))
-        # remove intervals that contain the detected changepoint.
-        scores[(cpt >= starts) & (cpt <= ends - 1)] = 0.0
+        # remove intervals that contain the detected changepoint. A removed interval
+        # must never be selected again, also not when the threshold is negative.
+        scores[(cpt >= starts) & (cpt <= ends - 1)] = -np.inf
     cpts.sort()
     return cpts
 
